@@ -4,7 +4,7 @@ open Abverif Abverif.Errors
 
 /-! line protocol of the C18 model (values, URIs, class names are tokens without blanks and without `; , = | : + ~`)
 
-`err.rt <calleeDefs> <callerDefs> <ctors> <exc> <tb>`
+`err.rt <calleeDefs> <callerDefs> <ctors> <exc> <tb> <dots>`   (tokens starting with `s` are strings; dots = token of "...")
    defs    `;`-separated `cls:<w>:<e>`   w = `~` (no `_wampuris`) or `,`-joined pattern URIs (`.` = empty list);
                                           e = `~` (define(cls)) or the explicit error URI.  `-` = no definitions.
            every definition is applied with `define` to `Registry.init`; a failing one leaves the registry unchanged
@@ -12,7 +12,7 @@ open Abverif Abverif.Errors
    exc     `cls;<appUri|~>;<args>;<kwargs>`   args = `~` (no attribute) | `.` (empty) | `,`-joined tokens
                                                kwargs = `~` | `.` | `,`-joined `k=v`
    tb      `~` (not forwarded) or a token
- answer:  `<uri>|<args>|<kwargs> M=<rexc> S=<rexc>`   (ERROR as sent, caller-side exception by the model and by the Spec)
+ answer:  `<uri>|<args>|<kwargs> M=<rexc> SM=<uri>|<args>|<kwargs> S=<rexc>`   (ERROR as sent by the invocation error path, caller-side exception by the model; and by the Spec)
            rexc = `app|<uri>|<args>|<kwargs>` or `user|<cls>|<args>|<kwargs>`
 
 `err.reg <mro> <bad> <ops>`
@@ -130,14 +130,14 @@ def runOps (patOk : Uri â†’ Bool) (env : ClassEnv) (reg : Registry) : List Op â†
       | .runtimeError => runOps patOk env reg rest ("RuntimeError" :: acc)
       | .typeError => runOps patOk env reg rest ("TypeError" :: acc)
       | .assertionError => runOps patOk env reg rest ("AssertionError" :: acc)
-      | .indexError => runOps patOk env reg rest ("IndexError" :: acc)
+      | .indexError r => runOps patOk env r rest ("IndexError" :: acc)
     | .defx c u =>
       match define patOk reg c (env.wampuris c) (some u) with
       | .ok r => runOps patOk env r rest ("ok" :: acc)
       | .runtimeError => runOps patOk env reg rest ("RuntimeError" :: acc)
       | .typeError => runOps patOk env reg rest ("TypeError" :: acc)
       | .assertionError => runOps patOk env reg rest ("AssertionError" :: acc)
-      | .indexError => runOps patOk env reg rest ("IndexError" :: acc)
+      | .indexError r => runOps patOk env r rest ("IndexError" :: acc)
 
 def parseMro (s : String) : Option (List (Cls Ã— List Cls)) :=
   (splitOn ';' s).mapM (fun e => match e.splitOn "=" with
@@ -147,7 +147,7 @@ def parseMro (s : String) : Option (List (Cls Ã— List Cls)) :=
 def dedup (l : List String) : List String := l.foldl (fun acc x => if acc.contains x then acc else acc ++ [x]) []
 
 def handle : List String â†’ Option String
-  | ["err.rt", d1, d2, ct, ex, tb] => do
+  | ["err.rt", d1, d2, ct, ex, tb, dots] => do
       let defs1 â† (splitOn ';' d1).mapM parseDef
       let defs2 â† (splitOn ';' d2).mapM parseDef
       let ctors â† parseCtors ct
@@ -155,10 +155,12 @@ def handle : List String â†’ Option String
       let tbv : Option String := if tb = "~" then none else some tb
       let r1 := applyDefs defs1
       let r2 := applyDefs defs2
-      let m := toError r1 e tbv
-      let model := roundtrip r1 r2 (ctorOf ctors) e tbv
+      let isStr := fun (t : String) => t.startsWith "s"
+      let m := invocationError isStr dots r1 e tbv
+      let model := roundtripInv isStr dots r1 r2 (ctorOf ctors) e tbv
       let spec := Spec.caller r1 r2 (ctorOf ctors) e tbv
-      pure s!"{renderMsg m} M={renderRExc model} S={renderRExc spec}"
+      let specMsg := s!"{Spec.uri r1 e}|{renderList (Spec.args e)}|{renderKw (Spec.kwargs e tbv)}"
+      pure s!"{renderMsg m} M={renderRExc model} SM={specMsg} S={renderRExc spec}"
   | ["err.reg", mro, bad, ops] => do
       let mroT â† parseMro mro
       let badL := (splitOn ',' bad).map (fun u => if u = "EMPTY" then "" else u)
